@@ -33,6 +33,7 @@ ASSUMPTIONS = [
     "reg, sing and the delta coefficient loc(0+) of each kernel are taken from the kernel objects (their mutual consistency is C03, their content C04); parton weights are taken from the kernel list (C02, C12, C13)",
     "integration borders follow the documented convention [x(1+1e-10), zmax(1-1e-10)]; x = 1 must return exactly 0 (documented border)",
     "scale-variation keys are C05's business: runs use RenScaleVar=FactScaleVar=False, only (k,0,0,0) keys are compared",
+    "an options slice (PTO 1, G6) runs with non-canonical projectiles, polarised beam + propagator correction, nuclear / fractional targets, non-default MZ / sin2thetaW / CKM, NCPositivityCharge, non-default masses with Qm != m and kThr = 2",
     "per-order tolerance relative to the sum of absolute pieces (plus the largest entry of the tensor): 1e-12 (LO, pure interpolation), 5e-7 (NLO, analytic kernels), 2e-6 (NNLO) and 2e-5 (N3LO): 6-digit printed constants of the parametrised kernels times large logs near x->1; measured maxima 1e-14, 3.7e-8, 2.5e-7, 3.6e-6",
     "cells that C16 classifies as rejected or known-finding (polarised CC, N3LO massive NaN, g1 PTO3) are excluded by the same rules",
 ]
@@ -120,6 +121,19 @@ def slices(tier):
             for k, h, p, sc, pto in itertools.product(SF_KINDS, ["total", "charm"], PROCS, ["ZM-VFNS", "FFNS3"], [0, 1])
             for xl, x in (_xl(g, "all") if g in ("U7", "M4") else _xl(g, "4"))
         ]
+        # unusual card options: the reference takes weights and convolution points from the kernel list, so every option that only changes weights / masses / thresholds is covered by the same oracle
+        OPTS = [
+            {"projectile": "positron", "obscard": {"PolarizationDIS": -0.6, "PropagatorCorrection": 0.1}},
+            {"projectile": "antineutrino", "target": "iron"},
+            {"projectile": "electron", "target": {"Z": 0.3, "A": 1.0}, "theoryx": {"MZ": 50.0, "SIN2TW": 0.4, "CKM": "0.9 0.3 0.1 0.3 0.9 0.2 0.1 0.2 0.95"}},
+            {"projectile": "neutrino", "obscard": {"NCPositivityCharge": "up"}, "theoryx": {"mc": 1.2, "mb": 4.0, "Qmc": 2.0, "kcThr": 2.0, "kbThr": 2.0}},
+        ]
+        s["O_options"] = [
+            dict(_mk(k, h, p, sc, 1, "G6", 30.0, xl, x, "O"), **o)
+            for o in OPTS
+            for k, h, p, sc in itertools.product(["F2", "FL", "F3", "g1"], ["total", "charm"], PROCS, ["ZM-VFNS", "FFNS3", "FFN03"])
+            for xl, x in _xl("G6", "3")
+        ]
         s["E_x1"] = [
             _mk(k, "total", p, sc, 1, "G6", 30.0, "one", 1.0, "E")
             for k, p, sc in itertools.product(SF_KINDS, PROCS, ["ZM-VFNS", "FFNS3"])
@@ -195,7 +209,7 @@ def execute(st):
     yrun.reset_memos()
     name = cards.obsname(st["kind"], st["heavyness"])
     cell = dict(st)
-    cell["theory"] = {"RenScaleVar": False, "FactScaleVar": False}
+    cell["theory"] = dict(st.get("theoryx", {}), RenScaleVar=False, FactScaleVar=False)
     kin = cards.kin(st["x"], st["Q2"])
     fp = {k: st[k] for k in ("kind", "heavyness", "process", "scheme", "pto", "grid", "xlab")}
     try:
